@@ -142,7 +142,27 @@ func BoundVar(prefix string, s *Sort) *Term {
 	varCount++
 	n := varCount
 	termMu.Unlock()
-	return mk("bound", s, fmt.Sprintf("%s!%d", sanitize(prefix), n), nil)
+	t := mk("bound", s, fmt.Sprintf("%s!%d", sanitize(prefix), n), nil)
+	termMu.Lock()
+	boundByID[t.id] = t
+	termMu.Unlock()
+	return t
+}
+
+var boundByID = map[int]*Term{}
+
+// closeOver universally quantifies the free bound variables of t (used for facts that are valid for every value).
+func closeOver(t *Term) *Term {
+	if len(t.fb) == 0 {
+		return t
+	}
+	var bs []*Term
+	termMu.Lock()
+	for _, id := range t.fb {
+		bs = append(bs, boundByID[id])
+	}
+	termMu.Unlock()
+	return Forall(bs, t)
 }
 
 func sanitize(s string) string {
